@@ -48,7 +48,9 @@ impl<T> DualLinkedList<T> {
         self.len
     }
 
-    pub(super) fn cancel(&mut self, handle: &EventHandle<T>) -> bool {
+    /// Unlinks the node of the given event and hands it to the caller, which
+    /// drops it once its own bookkeeping is done (the payload's destructor may unwind).
+    pub(super) fn cancel(&mut self, handle: &EventHandle<T>) -> Option<LocalBox<EventNode<T>>> {
         let mut cur = self.head.next;
         unsafe {
             while !(*cur).next.is_null() {
@@ -59,13 +61,12 @@ impl<T> DualLinkedList<T> {
                     (*cur.next).prev = cur.prev;
                     self.len -= 1;
 
-                    drop(cur);
-                    return true;
+                    return Some(cur);
                 }
                 cur = (*cur).next;
             }
         }
-        false
+        None
     }
 
     pub(super) fn front_time(&self) -> Duration {
